@@ -285,7 +285,10 @@ fn faults_for(mode: Mode, tier: Tier, seed: u64, img: &ImageInfo) -> Vec<Fault> 
         // 'c' and 'C' differ by bit 5), and the kind byte replaced by each other valid pack kind
         for span in &img.spans[fi] {
             // the 64-byte pack header block (magic, kind, versions, sizes): all eight bits
-            let hot: Vec<u64> = (span.start..(span.start + 64).min(len)).collect();
+            // (C05 / C06: the first 16 bytes - magic, kind, versions, flags; the rest of the block is
+            // uuid and sizes, which the three standard masks already cover)
+            let width = if mode == Mode::C04 { 64 } else { 16 };
+            let hot: Vec<u64> = (span.start..(span.start + width).min(len)).collect();
             if mode == Mode::C04 && span.kind == b'C' {
                 // C04 judges the checked range of manifest / directory / content packs only
                 continue;
@@ -505,7 +508,15 @@ fn faults_for(mode: Mode, tier: Tier, seed: u64, img: &ImageInfo) -> Vec<Fault> 
                 }
                 // every page boundary of the file, and the bytes around the end of each pack's
                 // last checksummed table (its block CRC sits right before the check block)
-                ls.extend((0..len).step_by(4096));
+                let pages = len / 4096;
+                if pages <= 64 {
+                    ls.extend((0..len).step_by(4096));
+                } else {
+                    // a huge file: a seeded sample of its page boundaries
+                    for _ in 0..64 {
+                        ls.push(rng.below(pages) * 4096);
+                    }
+                }
                 for span in &img.spans[fi] {
                     let e = span.start + span.check_info_pos;
                     ls.extend(e.saturating_sub(12)..e + 4);
